@@ -536,3 +536,176 @@ blte_prog!(c01_kf_index_x1_de1_cs1, 1, S S, [X 1, De 1]);
 blte_prog!(c01_kf_index3_me1_c1_de1_cs1, 1, S S, [Me 1, C 1, De 1]);
 // @end
 
+
+// ---- hand-written harnesses on top of the same models -------------------------------------------------
+macro_rules! blte_harness {
+    ($name:ident, $body:block) => {
+        #[kani::proof]
+        #[kani::unwind(26)]
+        #[kani::stub(cascette_crypto::salsa20::Salsa20Cipher::generate_keystream, uf_generate_keystream)]
+        #[kani::stub(cascette_crypto::arc4::Arc4Cipher::new, uf_arc4_new)]
+        #[kani::stub(cascette_crypto::arc4::Arc4Cipher::next_keystream_byte, uf_arc4_next)]
+        #[kani::stub(cascette_crypto::md5::ContentKey::from_data, uf_content_key)]
+        #[kani::stub(cascette_crypto::keys::TactKeyStore::add, ks_add)]
+        #[kani::stub(cascette_crypto::keys::TactKeyStore::get, ks_get)]
+        #[kani::stub(std::hash::RandomState::new, fixed_random_state)]
+        #[kani::stub(std::fmt::format, fmt_format_empty)]
+        #[kani::stub(lz4_flex::block::decompress_safe::decompress, lz4_decompress_reached)]
+        #[kani::stub(flate2::read::ZlibDecoder::new, zlib_new_reached)]
+        fn $name() $body
+    };
+}
+
+// @family prop=C01 tier=quick timeout=600 role=kf-table-decompressed-size-encrypted
+// @bounds one add_mixed_data(Some(spec B Salsa20)) call with a 2-byte symbolic payload, chunk size 3; keys / IVs symbolic
+// @encodes cascette_formats::blte::BlteBuilder::create_encrypted_chunk_with_params, cascette_formats::blte::ChunkInfo::from_chunk_data, cascette_formats::blte::BlteHeader::multi_chunk_with_flags
+// @assumes same models as the builder-program families
+// @catches EXPECTED TO FAIL on the unchanged tree (genuine defect): assertion 'KF: chunk table decompressed_size of an encrypted chunk ...' (the builder records payload + 1: it counts the inner mode byte)
+blte_harness!(c01_kf_table_decompressed_size_encrypted, {
+    let s: Sym<2> = Sym::any(S, S);
+    let b = BlteBuilder::new().with_chunk_size_unchecked(3);
+    let b = match b.add_mixed_data(&s.pay[0..2], Some((s.spec_b(), s.key_b))) {
+        Ok(b) => b,
+        Err(e) => {
+            std::mem::forget(e);
+            assert!(false, "builder rejected a valid call");
+            return;
+        }
+    };
+    let file = match b.build() {
+        Ok(f) => f,
+        Err(e) => {
+            std::mem::forget(e);
+            assert!(false, "build failed");
+            return;
+        }
+    };
+    let mut store = TactKeyStore::empty();
+    store.add(TactKey::new(s.name_b, s.key_b));
+    let out = file.decompress_with_keys(&store);
+    let decoded_len = match &out {
+        Ok(v) => v.len(),
+        Err(_) => {
+            assert!(false, "decode failed");
+            return;
+        }
+    };
+    assert!(decoded_len == 2, "decoded length");
+    let ext = match &file.header.extended {
+        Some(e) => e,
+        None => {
+            assert!(false, "encrypted content must carry a chunk table");
+            return;
+        }
+    };
+    kani::cover!(ext.chunk_infos.len() == 1, "one table entry");
+    assert!(ext.chunk_infos[0].decompressed_size as usize == decoded_len, "KF: chunk table decompressed_size of an encrypted chunk is not the number of bytes the chunk decodes to (builder records payload + 1, counting the inner mode byte)");
+    std::mem::forget(out);
+    std::mem::forget(store);
+    std::mem::forget(file);
+});
+// @end
+
+// @family prop=C01 tier=quick timeout=600 role=kf-explicit-block-index
+// @bounds one add_encrypted_data call (Salsa20) as the first builder call, 1-byte symbolic payload, explicit block_index ANY usize; keys / IV symbolic
+// @encodes cascette_formats::blte::BlteBuilder::add_encrypted_data, cascette_formats::blte::BlteFile::decompress_with_keys
+// @assumes same models as the builder-program families
+// @catches EXPECTED TO FAIL on the unchanged tree (genuine defect): assertion 'KF: add_encrypted_data accepts a block_index ...' — the builder neither rejects nor corrects an index the decoder will not use (decoder always uses the chunk position)
+blte_harness!(c01_kf_explicit_block_index_mismatch, {
+    let s: Sym<1> = Sym::any(S, S);
+    let bi: usize = kani::any();
+    let b = BlteBuilder::new();
+    let r = b.add_encrypted_data(&s.pay[0..1], s.spec_b(), s.key_b, bi);
+    let b = match r {
+        Ok(b) => b,
+        Err(e) => {
+            std::mem::forget(e);
+            return; // rejecting is allowed
+        }
+    };
+    let file = match b.build() {
+        Ok(f) => f,
+        Err(e) => {
+            std::mem::forget(e);
+            return;
+        }
+    };
+    let mut store = TactKeyStore::empty();
+    store.add(TactKey::new(s.name_b, s.key_b));
+    let out = file.decompress_with_keys(&store);
+    let good = match &out {
+        Ok(v) => v.len() == 1 && v[0] == s.pay[0],
+        Err(_) => false,
+    };
+    kani::cover!(good, "index 0 round-trips");
+    if bi as u32 == 0 {
+        assert!(good, "block index equal to the chunk position (mod 2^32) must round-trip");
+    }
+    assert!(good, "KF: add_encrypted_data accepts a block_index different from the chunk's position; the container it returns does not decode to the added bytes");
+    std::mem::forget(out);
+    std::mem::forget(store);
+    std::mem::forget(file);
+});
+// @end
+
+// @family prop=C01 tier=quick timeout=600 role=header-chunk-count-be24-write
+// @bounds chunk_count symbolic 0..=2^24-1 written by the real header writer (table emptied so that only the count field varies)
+// @encodes cascette_formats::blte::BlteHeader::write_options, cascette_formats::blte::header::ExtendedHeader::write_options, cascette_formats::blte::BlteHeader::multi_chunk
+// @assumes MD5 model as above; the reading direction (#[br(map)] closure inside the binrw derive) needs >= 256 table entries to distinguish a wrong shift and is outside
+// @catches wrong shift / byte order of the 24-bit chunk count, flags byte misplaced, header_size not big-endian
+blte_harness!(c01_header_chunk_count_be24_write, {
+    use binrw::BinWrite;
+    let count: u32 = kani::any();
+    let hs: u32 = kani::any();
+    kani::assume(count <= 0xFF_FFFF);
+    let chunks = vec![ChunkData::new(Vec::new(), CompressionMode::None).unwrap()];
+    let mut h = match cascette_formats::blte::BlteHeader::multi_chunk(&chunks) {
+        Ok(h) => h,
+        Err(e) => {
+            std::mem::forget(e);
+            assert!(false, "multi_chunk failed");
+            return;
+        }
+    };
+    h.header_size = hs;
+    if let Some(e) = h.extended.as_mut() {
+        e.chunk_count = count;
+        let old = std::mem::take(&mut e.chunk_infos);
+        std::mem::forget(old);
+    }
+    let mut bytes: Vec<u8> = Vec::new();
+    let mut cur = std::io::Cursor::new(&mut bytes);
+    let r = h.write_options(&mut cur, binrw::Endian::Big, ());
+    assert!(r.is_ok(), "header write failed");
+    std::mem::forget(r);
+    assert!(bytes.len() == 12, "magic + header_size + flags + 24-bit count");
+    assert!(bytes[0] == b'B' && bytes[1] == b'L' && bytes[2] == b'T' && bytes[3] == b'E', "magic");
+    assert!(bytes[4] == (hs >> 24) as u8 && bytes[5] == (hs >> 16) as u8 && bytes[6] == (hs >> 8) as u8 && bytes[7] == hs as u8, "header_size must be big-endian");
+    assert!(bytes[8] == 0x0F, "standard table flag");
+    assert!(bytes[9] == (count >> 16) as u8 && bytes[10] == (count >> 8) as u8 && bytes[11] == count as u8, "chunk count must be 24-bit big-endian");
+    kani::cover!(count == 0x01_0203, "all three count bytes distinct");
+    std::mem::forget(bytes);
+    std::mem::forget(h);
+    std::mem::forget(chunks);
+});
+// @end
+
+// @family prop=C01 tier=quick timeout=600 role=unknown-cipher-type-rejected
+// @bounds encryption type byte symbolic outside {0x53, 0x41}; 1-byte payload; both encrypting entry points
+// @encodes cascette_formats::blte::encrypt_chunk_with_key, cascette_formats::blte::BlteBuilder::add_encrypted_data, cascette_formats::blte::BlteBuilder::add_data
+// @assumes same models as the builder-program families
+// @catches an unknown cipher type silently producing a plaintext / undecodable chunk instead of an error
+blte_harness!(c01_unknown_cipher_type_rejected, {
+    let s: Sym<1> = Sym::any(S, S);
+    let ty: u8 = kani::any();
+    kani::assume(ty != 0x53 && ty != 0x41);
+    let spec = EncryptionSpec { key_name: s.name_a, iv: s.iv_a, encryption_type: ty };
+    let r1 = BlteBuilder::new().add_encrypted_data(&s.pay[0..1], spec, s.key_a, 0);
+    assert!(r1.is_err(), "add_encrypted_data accepted an unknown encryption type");
+    let r2 = BlteBuilder::new().with_encryption(spec, s.key_a).add_data(&s.pay[0..1]);
+    assert!(r2.is_err(), "add_data under with_encryption accepted an unknown encryption type");
+    kani::cover!(ty == 0x45, "type byte 'E'");
+    std::mem::forget(r1);
+    std::mem::forget(r2);
+});
+// @end
